@@ -7,6 +7,7 @@ from gen import header, grammar
 
 LEVEL_NOTE = [
     "theorem C19.lex_shift / lex_after_prefix: the lexer is blind to what precedes it — standing at column 1 in front of a text after dl lines of other text it produces exactly the items (kinds, values, columns) and diagnostics of that text alone, moved down by dl lines (equivariance proved for every function of the lexer model, Proofs/LexShift.lean)",
+    "theorem C19.comment_lines_prefix (Proofs/CommentLine.lean): n one-line block comments (any text whose characters read as themselves and that holds no `*/`; the eleven lines of the 42 header are a checked instance) put in front of ANY source lex to 2n comment/newline tokens followed by exactly the items and diagnostics of the source moved down n lines — the reachability half that lex_after_prefix left open, so the lexer half of the shift claim is a closed theorem",
     "lexer half: token positions are visual positions (C09.token_positions) and the token stream tiles the source (C10.tiling), so text prepended line-wise can only shift the lines of later tokens; engine half: the loop of Registry.run is a left fold over statements (C07 theorems) — diagnostics of a prefix cannot depend on statements appended after it except through look-ahead inside rules",
     "tie: the locality oracle below runs the whole pipeline on (file, file with header / comment line / appended function) pairs",
 ]
